@@ -337,9 +337,12 @@ def _track_layout(ctx, cv, arr_node):
         lay, rol = state
         if isinstance(st, ast.Assign) and isinstance(st.targets[0], ast.Name) and st.targets[0].id == arr and isinstance(st.value, ast.Call):
             k = ctx.model.resolve_call(cv, st.value).key
-            is_copy = (k == "numpy.copy" and st.value.args) or (isinstance(st.value.func, ast.Attribute) and st.value.func.attr == "copy" and not st.value.args)
+            is_copy = (k in ("numpy.copy", "numpy.array", "numpy.asarray", "numpy.asarray_chkfinite", "numpy.ascontiguousarray") and st.value.args) or \
+                (isinstance(st.value.func, ast.Attribute) and st.value.func.attr == "copy" and not st.value.args) or \
+                (isinstance(st.value.func, ast.Attribute) and st.value.func.attr == "astype" and not isinstance(st.value.func.value, ast.Call))
             if is_copy:
-                src = st.value.args[0] if st.value.args else st.value.func.value
+                src = st.value.func.value if isinstance(st.value.func, ast.Attribute) and st.value.func.attr in ("copy", "astype") and \
+                    k not in ("numpy.copy",) else st.value.args[0]
                 for n in walk_no_nested(cv.node):
                     if isinstance(n, ast.Assign) and isinstance(n.targets[0], ast.Tuple) and isinstance(n.value, ast.Attribute) and \
                             n.value.attr == "shape" and unparse(n.value.value) == unparse(src) and n.lineno < st.lineno:
@@ -437,6 +440,38 @@ def _weighting(ctx, cv):
                             # a transposition that leaves the two question axes (2, 3) where they are does not matter
                             if perm is None or len(perm) != 4 or perm[2:] != [2, 3]:
                                 early.append(st)
+                    # dtype: the buffer receives pi(x,y) * V, a real number, by item assignment; a buffer that inherits the dtype of the
+                    # caller's predicate (np.copy(pred_mat), pred_mat.copy()) truncates the weighted entries when the predicate is an
+                    # integer (0/1) array -- every entry becomes 0 and the value is reported as 0.
+                    if arr is not None:
+                        defs = [st for st in walk_no_nested(cv.node) if isinstance(st, ast.Assign) and len(st.targets) == 1 and
+                                isinstance(st.targets[0], ast.Name) and st.targets[0].id == arr and st.lineno < n.lineno]
+                        inherits = None
+                        for st in defs:
+                            v = st.value
+                            txt = unparse(v)
+                            floaty = any(isinstance(x, ast.Constant) and isinstance(x.value, (float, complex)) and not isinstance(x.value, bool) for x in ast.walk(v)) or \
+                                any(isinstance(x, ast.BinOp) and isinstance(x.op, ast.Div) for x in ast.walk(v))
+                            forced = None
+                            for x in ast.walk(v):
+                                if isinstance(x, ast.Call):
+                                    for kw in x.keywords:
+                                        if kw.arg == "dtype":
+                                            forced = unparse(kw.value)
+                                    if isinstance(x.func, ast.Attribute) and x.func.attr == "astype" and x.args:
+                                        forced = unparse(x.args[0])
+                                    kk = m.resolve_call(cv, x).key or ""
+                                    if kk in ("numpy.array", "numpy.asarray", "numpy.zeros", "numpy.empty", "numpy.ones", "numpy.full") and len(x.args) >= 2:
+                                        forced = unparse(x.args[1])
+                            inexact = forced is not None and any(t in forced for t in ("float", "complex", "double", "inexact"))
+                            if "pred_mat" in txt and not floaty and not inexact:
+                                inherits = (st, forced)
+                        ctx.ob("R-DTYPE", cv, "the weighted copy of the predicate is a floating-point array", inherits is None,
+                               "the buffer is created with an explicit floating dtype (or by float arithmetic)" if inherits is None else
+                               f"`{unparse(inherits[0])[:70]}` has the dtype of the caller's predicate"
+                               + (f" (forced to `{inherits[1]}`)" if inherits[1] else "") +
+                               f"; `{unparse(n)[:60]}` stores pi(x,y) * V into it: with an integer 0/1 predicate every weighted entry is truncated to 0 "
+                               "and the classical value comes out 0", n)
                     uses_T = any(isinstance(x, ast.Attribute) and x.attr == "T" and "prob_mat" in unparse(x.value) for x in ast.walk(n.value))
                     if arr is not None:
                         ctx.ob("R-ORDER", cv, "the copy is weighted by pi(x, y) before any player swap re-orients its question axes", not early or None if uses_T else not early,
